@@ -12,8 +12,9 @@ sys.path.insert(0, os.environ.get("PYVC_REPO", "/repo"))
 if __name__ == "__main__":
     name, tier, seed = sys.argv[1], sys.argv[2], int(sys.argv[3])
     try:
-        mod = importlib.import_module("bounded." + name)
-        out = mod.run(tier, seed)
+        modname, _, arg = name.partition(":")
+        mod = importlib.import_module("bounded." + modname)
+        out = mod.run(tier, seed, arg) if arg else mod.run(tier, seed)
         out.setdefault("status", "refuted" if out.get("failures") else "clean")
     except Exception as e:   # noqa: BLE001
         out = {"status": "error", "error": f"{type(e).__name__}: {e}", "stderr": traceback.format_exc()[-1500:]}
